@@ -12,7 +12,8 @@ NAMES = [[b"local"], [b"foo", b"local"], [b"bar", b"foo", b"local"], [b"foobar",
          [b"_my", b"local"], [b"_mysrv", b"local"], [b"officeprinter", b"local"], [b"printer", b"office", b"local"],
          [b"office", b"local"], [b"\x03foo", b"local"], [b"a", b"_my", b"local"], [b"\xff\xfe", b"local"], [b"FOO", b"local"],
          # a label holding a dot (DNS-SD instance names do) against the name with the dot as a label separator
-         [b"printer.office", b"local"], [b"office", b"printer", b"local"], [b"printer", b"local"]]
+         [b"printer.office", b"local"], [b"office", b"printer", b"local"], [b"printer", b"local"],
+         [b"host", b"local"], [b"a", b"host", b"local"], [b"abcdefghijklmnopq", b"host", b"local"], [b"_x", b"local"]]
 INFO = {}
 
 
@@ -31,6 +32,12 @@ def pool(rng):
     out.append(rr(NAMES[2], ("T", "MB", [("N", NAMES[1])])))
     out.append(rr(NAMES[3], ("T", "A", [("I", 7)]), cls=3))
     out.append(rr(NAMES[3], ("T", "PTR", [("N", NAMES[2])])))
+    # an SRV whose target (host.local) owns no record, while two names below it do
+    out.append(rr([b"_x", b"local"], ("T", "SRV", [("I", 0), ("I", 0), ("I", 9), ("N", [b"host", b"local"])])))
+    out[:] = [r for r in out if r["name"] != [b"host", b"local"]]
+    # record types above 255 next to a single address family
+    out.append(rr(NAMES[0], ("T", "CAA", [("I", 0), ("B", b"issue"), ("B", b"ca.example")])))
+    out.append(rr(NAMES[9], ("U", 65280, b"\x01")))
     return out
 
 
@@ -73,6 +80,16 @@ def cases(rng, tier):
             k += 1
         for q in qs:
             ops.append(("R", query_pkt(k & 0xFFFF, [q])))
+        c = "STORE " + ops_text(ops)
+        INFO[c] = ops
+        out.append(c)
+    # directed: an SRV answer whose target owns no record while several names below the target do (the exact-name lookup for
+    # the additional section must not fall through to them), with every registration order
+    fam = [r for r in P if r["name"][-2:] == [b"host", b"local"] or r["name"] == [b"_x", b"local"]]
+    for perm in itertools.permutations(fam):
+        ops = [("AA", r) for r in perm]
+        for qt in (33, 255, 1):
+            ops.append(("R", query_pkt(9, [{"name": [b"_x", b"local"], "qtype": qt, "qclass": 1, "uni": False}])))
         c = "STORE " + ops_text(ops)
         INFO[c] = ops
         out.append(c)
